@@ -1,5 +1,5 @@
 #!/usr/bin/env bash
-A="$1"; B="$2"; T=$(mktemp -d); d=0
+export RUST_BACKTRACE=0 RUST_LIB_BACKTRACE=0; A="$1"; B="$2"; T=$(mktemp -d); d=0
 mk(){ rm -rf "$1"; mkdir -p "$1/src/sub" "$1/other" "$1/weird.pas"; printf 'a  :=  b ;\n' > "$1/src/a.pas"; printf 'begin  x;end.\n' > "$1/src/sub/b.PAS"; printf 'c ;\n' > "$1/src/c.dpr"; printf 'd ;\n' > "$1/src/d.txt"; printf 'e ;\n' > "$1/other/e.dpk"; printf '\xff\xfe\xff' > "$1/other/bad.pas"; printf 'w ;\n' > "$1/weird.pas/w.pas"; ln -s "$1/src/a.pas" "$1/other/link.pas"; }
 run(){ mode="$1"; shift; for bin in A B; do mk "$T/$bin"; ( cd "$T/$bin" && RAYON_NUM_THREADS=1 "${!bin}" --mode="$mode" "$@" >"$T/$bin.out" 2>"$T/$bin.err"; echo "rc=$?" >>"$T/$bin.out"; find . -type f | sort | xargs sha256sum >"$T/$bin.tree" 2>/dev/null ); sed -i "s#$T/$bin#ROOT#g" "$T/$bin.out" "$T/$bin.err"; done; if ! cmp -s "$T/A.out" "$T/B.out" || ! cmp -s "$T/A.err" "$T/B.err" || ! cmp -s "$T/A.tree" "$T/B.tree"; then echo "DIFF: mode=$mode args=$*"; d=$((d+1)); fi; }
 for mode in files check stdout; do
